@@ -113,13 +113,14 @@ func init() {
 			g14VisitContinues(c.Repo, c.Rep)
 			g16Load(c.Repo, c.Rep)
 			g12HasUndefined(c)
-			g17StaleArgTypes(c.Repo, c.Rep)
+			g22PreviousOutputHidden(c)
+			g17StaleArgTypes(c)
 			g18CallOrder(c.Repo, c.Rep)
-			g19AtomicPrint(c.Repo, c.Rep)
+			g19AtomicPrint(c)
 			c.Rep.floor("G4", 10)
 			c.Rep.floor("G10", 9)
 		},
-		explanation: "Decides the mechanisms C07's anchors name, each a necessary condition: the derived file is written with a truncating os.Create on a path that comes only from (*pkg).Filename(), the same constant is what discovery excludes (G4); every successful return of generatePackage has passed through Print (HasContent) or Delete (otherwise) (G10 must-pass-through on the CFG); the loader tolerates type errors and an unparsable derived file; files named derivedFilename are excluded from call discovery, names resolved into it are re-queued and never reserved; no user file is skipped when listing package files (G10). Not decided: byte identity across histories; (G17) whatever decides whether a call's argument types are known yet must consult the derived-file classification — on the current tree nothing does, which is the known stale-signature defect (deriveSort(deriveKeys(m)) after retyping m), reported as a known finding. Added: reserved names never come from the whole type-checked package (G14); the finder continues into a call's arguments (G14); HasUndefined examines whole types (G12); loads include test files, tolerate errors, nobody reads a package's Errors list (G16).",
+		explanation: "Decides the mechanisms C07's anchors name, each a necessary condition: the derived file is written with a truncating os.Create on a path that comes only from (*pkg).Filename(), the same constant is what discovery excludes (G4); every successful return of generatePackage has passed through Print (HasContent) or Delete (otherwise) (G10 must-pass-through on the CFG); the loader tolerates type errors and an unparsable derived file; files named derivedFilename are excluded from call discovery, names resolved into it are re-queued and never reserved; no user file is skipped when listing package files (G10). (G22) the previous output is not an input of the first pass: every loader.Config installs a FindPackage hook that takes the package from (*build.Context).Import and, on every CFG path to a return on which the package is non-nil and marked stale, has replaced GoFiles by a filter of GoFiles by derivedFilename (the filter is evaluated abstractly on literal lists: exactly the other names, in order); (*plugins).Load marks every path it loads as stale; a load that marks nothing comes after this run's Print; the hook drops derivedFilename from InvalidGoFiles and clears go/build's error only under a condition on what remains of InvalidGoFiles. G17 (argument types cannot come from the previous derived.gen.go, nor from the callee's declaration) and G19 (a truncated remnant is never read, or the file is replaced atomically) are discharged through G22; on the tree before fix a84a5a8 both fail. G18: one call list in visit order. Not decided: byte identity across histories beyond these necessary conditions; derived files of imported (non-initial) packages. Added: reserved names never come from the whole type-checked package (G14); the finder continues into a call's arguments (G14); HasUndefined examines whole types (G12); loads include test files, tolerate errors, nobody reads a package's Errors list (G16).",
 		assumptions: commonAssumptions,
 		technique:   "custom static analysis: who-may-call table, path provenance, go/cfg must-pass-through and exclusion (reachability/dominance) rules",
 	}
